@@ -23,6 +23,8 @@ pub enum Ans {
     Panic,
     /// answers 200 once the harness opens the gate: a handler that keeps its thread of the blocking pool busy
     Gated,
+    /// asks for the body (limit M) once the harness opens the gate
+    GatedFetch(u64),
 }
 static GATE: (Mutex<bool>, std::sync::Condvar) = (Mutex::new(false), std::sync::Condvar::new());
 fn set_gate(open: bool) {
@@ -32,6 +34,7 @@ fn set_gate(open: bool) {
 fn ans_json(a: &Ans) -> Value {
     match a {
         Ans::Gated => json!({"k":"Normal","code":200,"max":[48]}),
+        Ans::GatedFetch(m) => json!({"k":"Fetch","code":0,"max":adigits(*m)}),
         Ans::Normal(c) => json!({"k":"Normal","code":c,"max":[48]}),
         Ans::Fetch(m) => json!({"k":"Fetch","code":0,"max":adigits(*m)}),
         Ans::Drop => json!({"k":"Drop","code":0,"max":[48]}),
@@ -71,7 +74,7 @@ impl Req {
     fn json(&self) -> Value {
         json!({"kind": self.kind, "L": adigits(self.declared), "sent": adigits(self.body.len()), "digest": dg(&self.body),
                "full": self.full(), "expect": self.expect, "answers": self.answers.iter().map(ans_json).collect::<Vec<_>>(),
-               "dirGone": self.dir_gone, "diskFail": self.disk_fail, "rst": false})
+               "dirGone": self.dir_gone, "diskFail": self.disk_fail, "rst": false, "contFail": false})
     }
     fn head(&self, path: &str) -> Vec<u8> {
         let mut m = match self.kind {
@@ -178,6 +181,11 @@ fn start_server(executor: &Arc<safina::executor::Executor>, small: usize, cache_
                 let g = GATE.0.lock().unwrap();
                 let _g = GATE.1.wait_timeout_while(g, Duration::from_secs(20), |open| !*open).unwrap();
                 Response::text(200, format!("tag:{path}:{n}"))
+            }
+            Ans::GatedFetch(m) => {
+                let g = GATE.0.lock().unwrap();
+                let _g = GATE.1.wait_timeout_while(g, Duration::from_secs(20), |open| !*open).unwrap();
+                Response::get_body_and_reprocess(m)
             }
         }
     };
@@ -769,6 +777,53 @@ pub fn run_limits(args: &Args, mut out: Out) {
         let cra = ClientResult { got: got_a, reset: reset_a, port: port_a };
         log_conn(&mut out, sid_b, &busy, &[qb], json!({"poolBusy": true, "cut": !over}), &recs, &crb, !over, false, ended_b, files_b);
         log_conn(&mut out, sid_a, &busy, &[qa], json!({"poolBusy": true}), &recs, &cra, false, true, ended_a, files_a);
+    }
+    set_gate(true);
+    // ---- the connection is already broken when the server wants to invite the upload (Expect: 100-continue): the client
+    // pipelines a small request ahead of the upload, leaves its answer unread and resets the connection while the upload's
+    // handler has not answered yet.  Whatever the server had prepared for the upload must be gone when the connection ends ----
+    for j in 0..(if tier > 0 { 16 } else { 6 }) {
+        sid += 1;
+        if !out.wants(sid) {
+            continue;
+        }
+        let q1 = Req { kind: "none", declared: 0, body: vec![], expect: false, answers: vec![Ans::Normal(200)], dir_gone: false, pad: 0, disk_fail: false };
+        let known = j % 2 == 0;
+        let q2 = Req { kind: if known { "known" } else { "unknown" }, declared: if known { 5000 } else { 0 }, body: vec![], expect: true,
+                       answers: vec![Ans::GatedFetch(100_000), Ans::Normal(200)], dir_gone: false, pad: 0, disk_fail: false };
+        {
+            let mut g = server.script.lock().unwrap();
+            g.clear();
+            g.insert(format!("/s{sid}/r1"), (q1.answers.clone(), 0));
+            g.insert(format!("/s{sid}/r2"), (q2.answers.clone(), 0));
+        }
+        server.calls.lock().unwrap().clear();
+        set_gate(false);
+        servlin::verif::start();
+        let mut c = std::net::TcpStream::connect(server.addr).unwrap();
+        let port = c.local_addr().unwrap().port();
+        let mut wire = q1.head(&format!("/s{sid}/r1"));
+        wire.extend(q2.head(&format!("/s{sid}/r2")));
+        c.write_all(&wire).unwrap();
+        let deadline = Instant::now() + Duration::from_secs(10);
+        while servlin::verif::snapshot().iter().filter(|r| r.kind == "HCall" && r.a == u64::from(port)).count() < 2 && Instant::now() < deadline {
+            std::thread::sleep(Duration::from_micros(300));
+        }
+        {
+            use std::os::fd::AsRawFd;
+            let lg = libc::linger { l_onoff: 1, l_linger: 0 };
+            unsafe {
+                libc::setsockopt(c.as_raw_fd(), libc::SOL_SOCKET, libc::SO_LINGER, std::ptr::addr_of!(lg).cast(), std::mem::size_of::<libc::linger>() as u32);
+            }
+        }
+        drop(c); // reset
+        std::thread::sleep(Duration::from_millis(5));
+        set_gate(true);
+        let ended = wait_conn_end(&[port]);
+        let recs = servlin::verif::take();
+        let files = count_files(&server);
+        let cr = ClientResult { got: vec![], reset: true, port };
+        log_conn(&mut out, sid, &server, &[q1, q2], json!({"contFail": true, "cut": true}), &recs, &cr, true, false, ended, files);
     }
     set_gate(true);
     take_panics();
